@@ -1,5 +1,6 @@
 """Check framework: proof obligations (lake build + axiom audit), correspondence, property oracle,
 failing-input search, known findings, evidence and the VIOLATION / KNOWN-FINDING protocol."""
+import re
 import os, sys, json, time, re, subprocess, random, hashlib, importlib, traceback, glob
 
 VERIF = os.path.dirname(os.path.dirname(os.path.abspath(__file__)))
@@ -347,7 +348,10 @@ def saved_corpus(pid):
         for f in sorted(os.listdir(d)):
             if f.endswith('.json'):
                 try:
-                    out.append(json.load(open(os.path.join(d, f)))['case'])
+                    kept = json.load(open(os.path.join(d, f)))
+                    out.append(kept['case'])
+                    if kept.get('unshrunk') is not None and kept['unshrunk'] != kept['case']:
+                        out.append(kept['unshrunk'])
                 except Exception:
                     pass
     return out
@@ -477,9 +481,12 @@ def run_check(prop, tier, seed, replay=None):
             if key0 is not None and k['key'] == key0:
                 known_hits.setdefault(k['id'], (k, r['case'], r['violation']))   # a listed finding: no need to shrink
                 return
+        sig = lambda v: re.sub(r'[0-9]+', '#', str(v))[:32]        # the kind of failure: the start of its description, numbers aside
+        sig0 = sig(r['violation'])
         def same_failure(c):
             rr = evaluate_cases(prop, [c])[0]
-            return bool(rr['violation']) and (prop.finding_key(c, rr['violation']) if not rr.get('disagree') else None) == key0
+            return bool(rr['violation']) and sig(rr['violation']) == sig0 and \
+                (prop.finding_key(c, rr['violation']) if not rr.get('disagree') else None) == key0
         small = shrink_case(prop, r['case'], same_failure) if r['violation'] else r['case']
         rr = evaluate_cases(prop, [small])[0]
         if not rr['violation']:
@@ -489,6 +496,7 @@ def run_check(prop, tier, seed, replay=None):
             if key is not None and k['key'] == key:
                 known_hits.setdefault(k['id'], (k, small, rr['violation']))
                 return
+        rr['unshrunk_case'] = r['case']
         new_violations.append((small, rr))
 
     for r in violations:      # every failing case is classified; shrinking stops at the first one no recorded finding explains
@@ -535,7 +543,8 @@ def run_check(prop, tier, seed, replay=None):
     if new_violations:
         c, rr = new_violations[0]
         path = write_replay(pid, seed, 'violation', {'property': pid, 'kind': 'property-violation', 'case': c,
-                            'rendered': prop.render(c), 'what': rr['violation'], 'impl': rr['impl'], 'broken': broken})
+                            'rendered': prop.render(c), 'what': rr['violation'], 'impl': rr['impl'], 'broken': broken,
+                            'unshrunk_case': rr.get('unshrunk_case')})
         lines.append(f'VIOLATION property={pid} replay={path}')
         exit_code = 1
     elif broken:
